@@ -24,7 +24,7 @@ import time
 HERE = os.path.dirname(os.path.abspath(__file__))
 VERIF = os.path.dirname(HERE)
 sys.path.insert(0, HERE)
-from extract import process_template, ExtractError, GenLine, find_simple_method, find_simple_const  # noqa: E402
+from extract import process_template, ExtractError, GenLine, find_simple_method, find_simple_const, find_simple_fn  # noqa: E402
 from rustlex import LexError  # noqa: E402
 
 OBL_CLASSES = [
@@ -414,9 +414,21 @@ def main():
                     if cc and not any(e[2] == cc[1] for e in extra_consts):
                         extra_consts.append((fpath, cc[0], cc[1]))
                         break
-        if inline_map or extra_consts:
+        inline_fns = {}
+        for x in tools:
+            for mm in re.finditer(r"cannot find function `(\w+)` in this scope", x.get("message", "") + x.get("rendered", "")):
+                for fpath in sorted(set(f["file"] for f in gen.functions)):
+                    try:
+                        ff = find_simple_fn(open(os.path.join(args.repo, fpath)).read(), mm.group(1))
+                    except Exception:  # noqa: BLE001
+                        ff = None
+                    if ff:
+                        inline_fns[mm.group(1)] = ff
+                        break
+        auto_variant = {"inline": inline_map, "extra_consts": extra_consts, "inline_fns": inline_fns}
+        if inline_map or extra_consts or inline_fns:
             try:
-                gen, path = build_unit(unit, cfg, args.repo, outdir, {"inline": inline_map, "extra_consts": extra_consts})
+                gen, path = build_unit(unit, cfg, args.repo, outdir, auto_variant)
                 text = gen.text()
                 vr = run_verus(path, logdir, extra)
                 cmds.append(" ".join(vr["cmd"]))
@@ -470,7 +482,7 @@ def main():
         if not blocking and not tools:
             def canary(fid):
                 try:
-                    g2, p2 = build_unit(unit, cfg, args.repo, outdir, {"ensures_false": fid}, "_canary_" + re.sub(r"\W", "_", fid))
+                    g2, p2 = build_unit(unit, cfg, args.repo, outdir, dict(auto_variant, ensures_false=fid), "_canary_" + re.sub(r"\W", "_", fid))
                 except Exception as e:  # noqa: BLE001
                     return fid, None, str(e)
                 v2 = run_verus(p2, None, ["--multiple-errors", "0"])
